@@ -13,6 +13,64 @@ def type_range(t, signed=False):
     return (0, (1 << b) - 1)
 
 
+_CR = {}
+
+
+def global_bytes(mod, name):
+    g = mod.globals.get(name)
+    if g is None or not g.get("constant"): return None
+    if "bytes" in g: return bytes.fromhex(g["bytes"])
+    if "int" in g: return int(g["int"]).to_bytes(g["bits"] // 8, "little")
+    if "struct" in g:
+        out = b""
+        for o in g["struct"]:
+            if o["k"] != "int": return None
+            out += int(o["v"]).to_bytes(max(1, o["bits"] // 8), "little")
+        return out
+    return None
+
+
+def const_return(mod, name):
+    """value returned by a parameterless single-block function that only inspects constant globals
+    (endianIsLittle() reads the first byte of a constant union): little-endian target"""
+    if name is None: return None
+    key = (id(mod), name)
+    if key in _CR: return _CR[key]
+    _CR[key] = None
+    fn = mod.fn(name)
+    if fn is None or fn.params or len(fn.blocks) != 1: return None
+    val = {}
+    def ev(o):
+        if o["k"] == "int": return int(o["v"])
+        if o["k"] == "inst": return val.get(o["v"])
+        return None
+    def gaddr(o):
+        # (global name, byte offset) for constant expressions over a global
+        if o["k"] == "global": return (o["v"], 0)
+        if o["k"] == "cexpr" and o["op"] in ("bitcast", "getelementptr"):
+            b = gaddr(o["ops"][0])
+            if b is None: return None
+            return (b[0], b[1] + int(o.get("off", 0))) if o["op"] == "getelementptr" else b
+        return None
+    for i in fn.blocks[0].insts:
+        if i.op == "load":
+            ga = gaddr(i.ops[0])
+            by = global_bytes(mod, ga[0]) if ga else None
+            if by is not None and ga[1] + i["size"] <= len(by): val[i.id] = int.from_bytes(by[ga[1]:ga[1] + i["size"]], "little")
+        elif i.op in ("zext", "trunc"):
+            v = ev(i.ops[0])
+            if v is not None: val[i.id] = v & ((1 << (type_bits(i["t"]) or 64)) - 1)
+        elif i.op == "icmp":
+            a, b = ev(i.ops[0]), ev(i.ops[1])
+            if a is not None and b is not None and i["pred"] in ("eq", "ne"):
+                val[i.id] = int((a == b) == (i["pred"] == "eq"))
+        elif i.op == "ret":
+            r = ev(i.ops[0]) if i.ops else None
+            _CR[key] = r
+            return r
+    return None
+
+
 class Intervals:
     def __init__(self, fn, ctx=None, fi=None):
         self.fn = fn; self.ctx = ctx or {}; self.memo = {}; self.fi = fi; self._ref = {}
@@ -180,6 +238,10 @@ class Intervals:
             if r is True: return (1, 1)
             if r is False: return (0, 0)
             return (0, 1)
+        if op == "call":
+            c = const_return(self.fn.mod, i.get("callee"))
+            if c is not None: return (c, c)
+            return top
         if op == "xor" and i["t"] == "i1":
             a = A(0); b = A(1)
             if a[0] == a[1] and b[0] == b[1]: return (a[0] ^ b[0],) * 2
